@@ -457,7 +457,8 @@ impl Gen {
                 let b = self.slots.iter().position(|s| s.kind == "gone").unwrap_or(self.slots.len());
                 let kind: &'static str = *self.rng.pick(&["rodeo", "reader", "resolver", "threaded", "threaded"]);
                 let cap = self.cap;
-                let n = match self.rng.below(10) {
+                let roll = if cap <= 255 { self.rng.below(10) } else { self.rng.below(7) };
+                let n = match roll {
                     0 => 0,
                     1..=6 => self.rng.range(1, 6) as usize,
                     7 => (cap.min(300) as usize).saturating_sub(1),
